@@ -355,3 +355,105 @@ func (p *Program) exitOnStopSignal(facts []Atom) bool {
 	}
 	return false
 }
+
+// ruleNoSlotAcrossHandshake: the TLS handshake lasts as long as the (not yet authenticated) peer
+// likes. A slot of a semaphore channel shared by all connections that is taken before Handshake
+// and given back after it is held for that long: a handful of peers that connect and stay silent
+// keep every slot, and no other client gets through the handshake. (A mutex held there is
+// R14.f/R19.f.) The rule follows sends and receives on channels that are not local to the
+// function, directly and through framework helpers whose body nets to an acquire or a release.
+func ruleNoSlotAcrossHandshake(c *Ctx, rid string) {
+	c.rule(rid, "at every call of (*tls.Conn).Handshake/HandshakeContext in the framework, on no path from the function's entry has a value been sent on a channel shared beyond the function (a semaphore slot taken) without a matching receive before the call")
+	shared := func(ch ssa.Value) bool {
+		os, ok := c.P.chanOrigins(ch)
+		if !ok && len(os) == 0 {
+			return true
+		}
+		for _, o := range os {
+			if o != "local" && o != "nil" && o != "clock" {
+				return true
+			}
+		}
+		return false
+	}
+	net := map[*ssa.Function]int{}
+	var netOf func(f *ssa.Function, d int) int
+	netOf = func(f *ssa.Function, d int) int {
+		if v, ok := net[f]; ok {
+			return v
+		}
+		net[f] = 0
+		n := 0
+		if f.Blocks != nil && inFramework(f) && d < 3 {
+			allInstrs(f, func(ins ssa.Instruction) {
+				switch x := ins.(type) {
+				case *ssa.Send:
+					if shared(x.Chan) {
+						n++
+					}
+				case *ssa.UnOp:
+					if x.Op == token.ARROW && shared(x.X) {
+						n--
+					}
+				}
+			})
+		}
+		net[f] = n
+		return n
+	}
+	nsites := 0
+	for _, fn := range c.P.RepoFuncs(pkgRedis) {
+		var hs []*ssa.Call
+		allInstrs(fn, func(ins ssa.Instruction) {
+			if call, ok := isCall(ins, "(*crypto/tls.Conn).Handshake", "(*crypto/tls.Conn).HandshakeContext"); ok {
+				hs = append(hs, call)
+			}
+		})
+		if len(hs) == 0 {
+			continue
+		}
+		c.analysed(fn)
+		type st struct{ Held int8 }
+		a := &Auto[st]{Fn: fn, Init: st{},
+			Step: func(s st, ins ssa.Instruction, fail func(string)) []st {
+				switch x := ins.(type) {
+				case *ssa.Send:
+					if shared(x.Chan) && s.Held < 3 {
+						s.Held++
+					}
+				case *ssa.UnOp:
+					if x.Op == token.ARROW && shared(x.X) && s.Held > 0 {
+						s.Held--
+					}
+				case *ssa.Call:
+					for _, h := range hs {
+						if h == x && s.Held > 0 {
+							fail("the handshake runs while this goroutine holds a slot of a channel shared with other connections: peers that stall in the handshake keep the slots and no other client completes one")
+						}
+					}
+					if f := staticCallee(x.Common()); f != nil && f.Blocks != nil && inFramework(f) {
+						if k := netOf(f, 0); k > 0 && s.Held < 3 {
+							s.Held++
+						} else if k < 0 && s.Held > 0 {
+							s.Held--
+						}
+					}
+				}
+				return []st{s}
+			}}
+		res := a.Run()
+		for i, h := range hs {
+			nsites++
+			key := fmt.Sprintf("%s/handshake#%d", fnName(fn), i)
+			bad := ""
+			for _, e := range res.Errs {
+				if e.Ins == ssa.Instruction(h) {
+					bad = e.Msg
+				}
+			}
+			c.check(bad == "", rid, key, c.P.instrPos(h), "no shared semaphore slot is held when the handshake starts", bad)
+		}
+	}
+	c.count("handshake-sites", nsites)
+	c.floor("handshake-sites", 1)
+}
